@@ -326,8 +326,10 @@ Qed.
 Definition good_container (c : container) : Prop := good (c_req c).
 
 (* Hypotheses of the main theorem.  Everything is about the INPUT pod:
-   - every amount is non-negative and on its name's grid (API-valid
-     granularity: milli-cpu, whole bytes, whole / milli extended resources);
+   - every amount is non-negative and on its name's grid: milli for cpu,
+     ephemeral-storage and scalars (guaranteed by the API server's defaulting),
+     WHOLE units for memory and pods (stricter than the API, which admits
+     fractional bytes: see fractional_memory_refuted);
    - statuses are filed under their own list's names (container names are
      unique across containers and init containers in a valid pod);
    - a pod-level name other than cpu / memory (hugepages-...) is one NewResource
@@ -642,9 +644,9 @@ Qed.
 
 (* ---------- what the scheduler reserves for a task, in every phase ---------- *)
 
-(* TaskInfo.Resreq (charged to the node ledger), TaskInfo.InitResreq (compared by
-   predicates) and upstream's effective request coincide for EVERY lifecycle
-   position of the pod: any phase, bound or not, being deleted or not. *)
+(* api.NewTaskInfo's Resreq / InitResreq / BestEffort are the one value
+   GetPodResourceRequest returns.  [m] is unused by the definitions: the
+   quantifier over it has no proof content (see Props/C15.v). *)
 Theorem task_reservation_eq_upstream ippvs plr ippl dra m p :
   pod_ok p ->
   let up1 := add_scalar (new_resource (k8s_pod_requests plsup (opts_of ippvs plr ippl dra) p)) pods_name 1 in
@@ -871,6 +873,87 @@ Proof.
   reflexivity.
 Qed.
 
+(* ---------- which upstream computation applies at which point ---------- *)
+
+(* the pod carries no resize information: what holds for a pod that has not
+   been started by a kubelet yet (statuses are written by the kubelet) *)
+Definition no_resize_info (p : pod) : Prop :=
+  p_cstat p = [] /\ p_istat p = [] /\ p_pstat p = None.
+
+Global Instance no_resize_info_dec p : Decision (no_resize_info p).
+Proof. unfold no_resize_info. apply _. Defined.
+
+Lemma k8s_eff_req_empty o inf c : k8s_eff_req o inf ∅ c = c_req c.
+Proof. unfold k8s_eff_req. destruct (o_status o); [rewrite lookup_empty|]; reflexivity. Qed.
+
+Lemma k8s_regular_empty o inf cs : forall a,
+  fold_left (fun acc c => add_rl acc (k8s_eff_req o inf ∅ c)) cs a =
+  fold_left (fun acc c => add_rl acc (c_req c)) cs a.
+Proof. induction cs as [|c cs IH]; intros a; [reflexivity|]. simpl. rewrite k8s_eff_req_empty. apply IH. Qed.
+
+Lemma k8s_init_empty o o' inf cs : forall st,
+  fold_left (k8s_init_step o inf ∅) cs st = fold_left (k8s_init_step o' inf ∅) cs st.
+Proof.
+  induction cs as [|c cs IH]; intros st; [reflexivity|]. cbn [fold_left].
+  replace (k8s_init_step o inf ∅ st c) with (k8s_init_step o' inf ∅ st c); [apply IH|].
+  unfold k8s_init_step. destruct st as [[a b] i]. rewrite !k8s_eff_req_empty. reflexivity.
+Qed.
+
+(* without resize information PodRequests does not depend on the status options *)
+Lemma k8s_no_resize_info_opts o o' p :
+  no_resize_info p -> o_skip_pl o = o_skip_pl o' -> o_dra o = o_dra o' ->
+  k8s_pod_requests plsup o p = k8s_pod_requests plsup o' p.
+Proof.
+  intros (Hc & Hi & Hp) Hs Hd. unfold k8s_pod_requests.
+  assert (k8s_aggregate o p = k8s_aggregate o' p) as ->.
+  { unfold k8s_aggregate. rewrite Hc, Hi, Hd. cbn [status_map status_map_from fold_left].
+    rewrite !k8s_regular_empty, (k8s_init_empty o o'). reflexivity. }
+  unfold k8s_finish. rewrite Hs, Hp.
+  destruct (o_ippl o && o_status o), (o_ippl o' && o_status o'); reflexivity.
+Qed.
+
+(* THE POD BEING PLACED (fit plugin / kubelet admission compute its request with
+   the status options off): volcano's InitResreq equals that request for every
+   pod that carries no resize information ... *)
+Theorem incoming_request_eq_upstream ippvs plr ippl dra keys m p :
+  pod_ok tracked plsup p -> no_resize_info p ->
+  cache_task_init_resreq tracked plsup ippvs plr ippl dra keys m p =
+  cache_add_csi (add_scalar (new_resource tracked (k8s_pod_requests plsup (opts_incoming plr dra) p)) pods_name 1) keys.
+Proof.
+  intros Hok Hn.
+  destruct (cache_reservation_eq_upstream tracked plsup ippvs plr ippl dra keys m p Hok) as (_ & -> & _).
+  rewrite (k8s_no_resize_info_opts (opts_of ippvs plr ippl dra) (opts_incoming plr dra) p Hn); reflexivity.
+Qed.
+
+(* congruence corollary, with the computation upstream uses at each point: the
+   incoming pod by [opts_incoming], the residents by [opts_of] *)
+Corollary node_fits_iff_incoming ippvs plr ippl dra rs alloc eps d keys m p :
+  Forall (fun x => pod_ok tracked plsup x.2) rs -> pod_ok tracked plsup p -> no_resize_info p ->
+  less_equal eps (cache_task_init_resreq tracked plsup ippvs plr ippl dra keys m p)
+    (sub alloc (node_used (map (fun x => cache_task_resreq tracked plsup ippvs plr ippl dra x.1.1 x.1.2 x.2) rs))) d =
+  less_equal eps
+    (cache_add_csi (add_scalar (new_resource tracked (k8s_pod_requests plsup (opts_incoming plr dra) p)) pods_name 1) keys)
+    (sub alloc (node_used (map (fun x => cache_add_csi
+                 (add_scalar (new_resource tracked (k8s_pod_requests plsup (opts_of ippvs plr ippl dra) x.2)) pods_name 1)
+                 x.1.1) rs))) d.
+Proof.
+  intros Hrs Hp Hn. rewrite (node_used_eq_upstream _ _ _ _ _ Hrs).
+  rewrite (incoming_request_eq_upstream ippvs plr ippl dra keys m p Hp Hn). reflexivity.
+Qed.
+
+(* the error outcome of the volume lookups: the task that addPod still adds on a
+   pending-PVC error carries exactly upstream's request + pods, no volume counts *)
+Theorem cache_error_outcome_eq_upstream ippvs plr ippl dra m p :
+  pod_ok tracked plsup p ->
+  let up1 := add_scalar (new_resource tracked (k8s_pod_requests plsup (opts_of ippvs plr ippl dra) p)) pods_name 1 in
+  cache_task_resreq_o tracked plsup ippvs plr ippl dra None m p = up1 /\
+  cache_task_best_effort_o tracked plsup ippvs plr ippl dra None m p = is_empty 1 up1.
+Proof.
+  intros Hok up1. simpl.
+  destruct (task_reservation_eq_upstream tracked plsup ippvs plr ippl dra m p Hok) as (H1 & _ & H3).
+  split; assumption.
+Qed.
+
 End Node.
 
 (* the reservation law is the relation of the theorem on all three vectors *)
@@ -1056,4 +1139,56 @@ Proof.
     apply bool_decide_eq_true in E. exact E.
   - intros (Hc & Hm & Hs). split; [split; assumption|]. intros k v E.
     apply bool_decide_eq_true. apply Hs, E.
+Qed.
+
+(* ... and NOT otherwise: a pod_ok pod whose container status reports more than
+   its spec (a pod that was started before and is being re-admitted, or a
+   Pending pod object that still carries statuses) has InitResreq 2000m while the
+   fit plugin / kubelet compute 1000m for the pod being placed: volcano may deny
+   a node on which upstream would place it.  For such a pod the status-aware
+   value is the one upstream uses once the pod is ON the node (main theorem). *)
+Definition witness_incoming : pod :=
+  mkPod [mkC 1 false {[cpu_name := 1 * nano_per_unit]}] []
+        [mkCS 1 (Some {[cpu_name := 2 * nano_per_unit]}) ∅] [] ∅ None [] None ∅ [].
+
+Lemma incoming_request_refuted :
+  exists p, pod_ok all_tracked huge_only p /\
+    cpu (cache_task_init_resreq all_tracked huge_only true true true false [] (mkMeta 1 false false) p) = 2000 /\
+    cpu (new_resource all_tracked (k8s_pod_requests huge_only (opts_incoming true false) p)) = 1000 /\
+    cpu (new_resource all_tracked (k8s_pod_requests huge_only (opts_of true true true false) p)) = 2000.
+Proof.
+  exists witness_incoming. split; [|repeat split; vm_compute; reflexivity].
+  apply (bool_decide_unpack _). vm_compute. exact I.
+Qed.
+
+(* fractional bytes of memory are admitted by the API server (with a warning):
+   two containers of memory 500m: volcano Value() per container 1 + 1 = 2,
+   upstream 1000m -> 1.  Outside pod_ok. *)
+Definition witness_fractional_memory : pod :=
+  mkPod [mkC 1 false {[mem_name := 500 * nano_per_milli]}; mkC 2 false {[mem_name := 500 * nano_per_milli]}]
+        [] [] [] ∅ None [] None ∅ [].
+
+Lemma fractional_memory_refuted :
+  exists p, ~ pod_ok all_tracked huge_only p /\
+    mem (vc_pod_request all_tracked huge_only true true true false p) = 2 /\
+    mem (new_resource all_tracked (k8s_pod_requests huge_only (opts_of true true true false) p)) = 1.
+Proof.
+  exists witness_fractional_memory. split; [|split; vm_compute; reflexivity].
+  intros H. apply (bool_decide_pack _) in H. vm_compute in H. exact H.
+Qed.
+
+(* kube units: a pod_ok pod (milli-granular ephemeral-storage 1500m) on which
+   volcano's milli amount is NOT 1000 x kube's Value(): kube rounds each pod up
+   to whole units (2), volcano keeps 1500; the whole_units premise of
+   volcano_in_kube_units is necessary *)
+Definition witness_fractional_eph : pod :=
+  mkPod [mkC 1 false {[eph_name := 1500 * nano_per_milli]}] [] [] [] ∅ None [] None ∅ [].
+
+Lemma kube_units_fractional_refuted :
+  exists p, pod_ok all_tracked huge_only p /\
+    sget (vc_pod_request all_tracked huge_only true true true false p) eph_name = 1500 /\
+    kube_value (k8s_pod_requests huge_only (opts_of true true true false) p) eph_name = 2.
+Proof.
+  exists witness_fractional_eph. split; [|split; vm_compute; reflexivity].
+  apply (bool_decide_unpack _). vm_compute. exact I.
 Qed.
